@@ -331,6 +331,14 @@ def _table_positions():
 
 TABLE_POS = _table_positions()
 
+# an expression over the slot's column instead of the bare column (term kinds whose constructor needs a bare column there are
+# skipped for this dimension)
+INNER = {
+    "arith": lambda x: x * 100 + 1,
+    "func": lambda x: FN.Lower(x),
+    "case": lambda x: Case().when(x == 1, x).else_(0),
+}
+
 # depth-2 compositions: an outer term holding a zoo term in one slot
 OUTER = {
     "arith": lambda x: x + 1,
@@ -369,6 +377,12 @@ def expand(chunk):
                 yield {"kind": "term", "name": chunk["name"], "slot": slot, "pair": pair, "outer": None}
         if n == 0:
             yield {"kind": "term", "name": chunk["name"], "slot": -1, "pair": "plain->plain", "outer": None}
+        # the slot holds an expression over the column instead of the bare column
+        if not stmt_like and chunk["name"] not in ("Values", "AtTimezone"):  # (these two take a column *name* there)
+            for slot in range(n):
+                for inner in INNER:
+                    for pair in ("plain->plain", "aliased->plain"):
+                        yield {"kind": "term", "name": chunk["name"], "slot": slot, "pair": pair, "outer": None, "inner": inner}
     elif chunk["kind"] == "term2":
         n, b = ZOO_BY[chunk["name"]]
         for slot in range(n):
@@ -387,7 +401,8 @@ def expand(chunk):
                 # the same statement built through every dialect's query class (their builders override parts of
                 # replace_table / get_sql)
                 if pair in ("plain->plain", "aliased->plain", "plain->oth") and not chunk["name"].startswith("pg_"):
-                    for qn in ("mysql", "postgresql", "sqlite", "mssql", "oracle"):
+                    for qn in ("mysql", "postgresql", "sqlite", "mssql", "oracle") + (
+                            ("mix:generic+mysql", "mix:mysql+generic", "mix:postgresql+sqlite", "mix:sqlite+postgresql") if pair == "plain->plain" else ()):
                         yield {"kind": "stmt", "name": chunk["name"], "slot": slot, "pair": pair, "q": qn}
 
 
@@ -412,6 +427,19 @@ def renders(o):
     return out
 
 
+class _MixQ:
+    """statement parts built through two dialect classes in turn (the statement as a whole, its subqueries and operands come from
+    different classes)"""
+
+    def __init__(self, a, b):
+        self._cls, self._n = (a, b), 0
+
+    def __getattr__(self, name):
+        c = self._cls[self._n % 2]
+        self._n += 1
+        return getattr(c, name)
+
+
 def run_case(case):
     _OTHER["mk"] = NEAR_TWINS.get(case["pair"])
     try:
@@ -423,7 +451,13 @@ def run_case(case):
 def _run_case(case):
     res = Result()
     mk_old, mk_new = PAIRS[case["pair"]]
-    Qd = fp.QCLS[case["q"]] if case.get("q") else None
+    Qd = None
+    if case.get("q"):
+        if case["q"].startswith("mix:"):
+            a_, b_ = case["q"][4:].split("+")
+            Qd = lambda: _MixQ(fp.QCLS[a_], fp.QCLS[b_])  # noqa: E731  (a fresh alternation for every construction)
+        else:
+            Qd = fp.QCLS[case["q"]]
     if case["kind"] == "term":
         n, b = ZOO_BY[case["name"]]
 
@@ -431,19 +465,29 @@ def _run_case(case):
             tabs = [other() for _ in range(max(n, 1))]
             if case["slot"] >= 0:
                 tabs[case["slot"]] = which()
-            t = b([fld(tabs[i], "c%d" % i) for i in range(max(n, 1))])
+            flds = [fld(tabs[i], "c%d" % i) for i in range(max(n, 1))]
+            if case.get("inner") and case["slot"] >= 0:
+                flds[case["slot"]] = INNER[case["inner"]](flds[case["slot"]])
+            t = b(flds)
             if case["outer"]:
                 t = OUTER[case["outer"]](t)
             return t
 
-        site = type(build(mk_old)).__name__ if not case["outer"] else type(b([fld(other(), "c%d" % i) for i in range(max(n, 1))])).__name__
+        try:
+            site = type(build(mk_old)).__name__ if not case["outer"] else type(b([fld(other(), "c%d" % i) for i in range(max(n, 1))])).__name__
+        except (AttributeError, TypeError) as e:
+            if not case.get("inner"):
+                raise
+            res.extra["disabled"] = 1
+            res.extra.setdefault("disabled_kinds", set()).add("inner:%s:%s" % (case["name"], type(e).__name__))
+            return res
         sigsite = "%s[%d]" % (case["name"].split(".")[0] if not case["name"].startswith(("functions.", "analytics.")) else site, case["slot"])
     else:
         fn = STMTS[case["name"]]
 
         def build(which):
             if Qd is not None:
-                return fn(lambda s: which() if s == case["slot"] else other(), Qd)
+                return fn(lambda s: which() if s == case["slot"] else other(), Qd() if case["q"].startswith("mix:") else Qd)
             return fn(lambda s: which() if s == case["slot"] else other())
 
         sigsite = "%s.%s" % (case["name"], case["slot"])
@@ -451,6 +495,10 @@ def _run_case(case):
         recv = build(mk_old)
         want = build(mk_new)
     except Exception as e:
+        if case.get("inner") and type(e).__name__ in ("AttributeError", "TypeError"):
+            res.extra["disabled"] = 1
+            res.extra.setdefault("disabled_kinds", set()).add("inner:%s:%s" % (case["name"], type(e).__name__))
+            return res
         if (sigsite, type(e).__name__) in (("update_join.from", "JoinException"),):
             # the base table appears in update() and in the ON criterion: with "old" in only one of them the join is invalid
             res.extra["disabled"] = 1
